@@ -83,7 +83,7 @@ func runC07(b *mon.B) {
 			walk := k%40 == 7 // one session walked up to 255 by jumping
 			rogue := ""
 			if r.Chance(1, 4) {
-				rogue = r.PickS("even", "replay", "bad-major", "bad-minor", "bad-type", "seq0", "oversize", "decrease", "after-255", "after-255",
+				rogue = r.PickS("even", "replay", "bad-major", "bad-minor", "bad-type", "seq0", "oversize", "decrease", "after-255", "after-255", "replay-other-type", "replay-other-type",
 					"pipelined-even", "pipelined-bad-type", "pipelined-bad-major", "pipelined-oversize")
 			}
 			order := interleave(r, recs)
@@ -172,6 +172,21 @@ func runC07(b *mon.B) {
 						h.Seq = r.Pick(1, 3)
 					}
 					body = bAuthenContinue(0, "pw", "")
+				case "replay-other-type":
+					// a session is open (login waiting at a prompt); its id comes back with a number
+					// that was already used, in a packet of another type
+					h.Seq = r.Pick(1, 3, 5)
+					play("authen/ascii/start", "rogue", h, body, true)
+					if dead {
+						break
+					}
+					h.Seq = r.Pick(1, h.Seq)
+					h.Type = r.Pick(2, 3)
+					if h.Type == 2 {
+						body = bAuthorRequest(6, 1, 1, 1, "alice", "p", "r", "service=shell", "cmd=show", "cmd-arg=version")
+					} else {
+						body = bAcctRequest(2, 6, 1, 1, 1, "alice", "p", "r", "task_id=9")
+					}
 				case "after-255":
 					// walk a session to the top of the number space with a continuation pending, then try again
 					h.Seq = 253
